@@ -33,6 +33,17 @@ Theorem C11_pattern_matches_only_listed_whole_numbers :
   (Rx.eol s j = true \/ exists x, nth_error s j = Some x /\ Rx.in_cset x NOT_DIGIT = true).
 Proof. exact AsToken.as_match_is_a_listed_whole_number. Qed.
 
+(* ... and the other half: a listed numeral (ASCII digits) standing between non-digits / line ends IS matched, and the engine's first choice (what re.sub
+   replaces) covers exactly that numeral -- also when another listed numeral is a prefix of it (RxLang.lang_ms for existence, the theorem above for
+   exactness).  At the start of a whole number the AS pattern therefore matches iff the number is listed, and then all of it. *)
+Theorem C11_a_listed_whole_number_is_matched_as_a_whole :
+  forall (s : list Rx.chr) (nums : list (list Rx.chr)) (n : list Rx.chr) (i : nat),
+  Forall (fun m => forallb is_digit m = true) nums -> In n nums -> RxLang.occ s n i -> (i <= length s)%nat ->
+  (i = 0%nat \/ ((1 <= i)%nat /\ exists x, nth_error s (i - 1) = Some x /\ Rx.in_cset x NOT_DIGIT = true)) ->
+  (Rx.eol s (i + length n) = true \/ exists x, nth_error s (i + length n) = Some x /\ Rx.in_cset x NOT_DIGIT = true) ->
+  exists c', RxFacts.match_at s (as_rx nums) i = Some ((i + length n)%nat, c').
+Proof. exact AsToken.as_engine_replaces_the_whole_number. Qed.
+
 Example C11_range_ends : as_repl 0 65000 = AsOk 64512%Z /\ as_repl 1023 65000 = AsOk 65535%Z /\ as_repl 1024 65000 = AsOk 64512%Z.
 Proof. vm_compute. repeat split; reflexivity. Qed.
 
@@ -41,3 +52,4 @@ Print Assumptions C11_out_of_range_rejected.
 Print Assumptions C11_hash_is_nonnegative.
 Print Assumptions C11_pattern_consumes_text.
 Print Assumptions C11_pattern_matches_only_listed_whole_numbers.
+Print Assumptions C11_a_listed_whole_number_is_matched_as_a_whole.
